@@ -269,4 +269,16 @@ def emission_exact(led, rid, ctx):
               "apply_predicates drops the holes outside the open interval before the bounds have been moved off "
               "the holes (or judges consistency before): a hole sitting on a bound is forgotten and the "
               "description admits a removed value")
-    led.floor(rid, "emission modes + order", n, 3)
+    # every predicate's variable is registered as present before its predicate is folded, so that
+    # clean_up resets exactly the records that were touched (also the ones that became inconsistent)
+    ins = [c for c in g.calls if c.name == "insert" and "present_ids" in show(resolver(g).operand(c.args[0]))]
+    steps = [c for c in g.calls if c.name in ("tighten_lower_bound", "tighten_upper_bound", "add_hole", "assign")]
+    ok2 = bool(ins) and len(steps) >= 4 and all(any(cfg.dominates(i_.bb, s_.bb) for i_ in ins) for s_ in steps)
+    n += 1
+    led.check(ok2, rid, "apply_predicates:registers-before-folding", g.span,
+              "present_ids.insert dominates every folding step",
+              "apply_predicates folds a predicate into a variable's record before (or without) registering the "
+              "variable in present_ids: a record that became inconsistent is never reset by clean_up, and every "
+              "later nogood that mentions the variable is dropped as trivially satisfied (blocking clauses "
+              "disappear, solutions repeat)")
+    led.floor(rid, "emission modes + order", n, 4)
